@@ -111,7 +111,7 @@ def run(project: Project, rep, tier: str):
     else:
         rep.refuted("SW-SHIFT", fi, fi.node, f"translation weight {sym.show(w)} ≠ 0", construct=f"{SW}: translation")
     # ---- structure of the two vectors
-    cbs = [ev for ev in I.log if ev["kind"] == "cityblock" and ev["fi"] is fi]
+    cbs = [ev for ev in I.log if ev["kind"] == "cityblock"]
     if len(cbs) != 1 or not all(isinstance(cbs[0][k], Bag) and cbs[0][k].parts for k in ("a", "b")):
         rep.unmodelled("SW-AUG", fi, fi.node, "the two sorted projected vectors were not found")
         return
